@@ -419,21 +419,59 @@ def features(spec):
         feats.add('node_type_overrides')
     # same type several nodes
     tc = {}
+    struct = {}
     for _, nt in node_list:
-        tc[nt] = tc.get(nt, 0) + 1
+        struct[nt] = tuple(spec['node_types'][nt]['ops'])     # nodes with the same operators are merged by vectorization
+        tc[struct[nt]] = tc.get(struct[nt], 0) + 1
     if any(v > 1 for v in tc.values()):
         feats.add('several_nodes_per_type')
     if any(any(e[0] == 'alg' for e in o['eqs']) for o in ops.values()):
         feats.add('algebraic_vars')
     # vectorization risk: a merged node type where an input var is edge-driven on some nodes but not on others
-    for nt, cnt in tc.items():
+    for st, cnt in tc.items():
         if cnt < 2:
             continue
-        members = [p for p, t in node_list if t == nt]
-        for n in spec['node_types'][nt]['ops']:
+        members = [p for p, t in node_list if struct[t] == st]
+        for n in st:
             for v, (vk, _) in ops[n]['vars'].items():
                 if vk == 'in':
                     driven = [f'{p}/{n}/{v}' in edge_targets for p in members]
                     if any(driven) and not all(driven):
                         risk.add('vec_partial_input_default')
     return sorted(feats), sorted(risk)
+
+
+def individualize(spec, rnd, params='different', vals=None):
+    """Give every node its own node type (same operators, hence same structure for vectorization) whose overrides
+    make all initial values unique per node and, if params == 'different', all constants unique per node.
+    With params == 'equal' all nodes of a type keep the declared constants (constant-collapse path)."""
+    from .ref import _walk
+    import copy
+    spec = copy.deepcopy(spec)
+    vals = vals or Vals(rnd)
+    for o in spec['ops'].values():
+        for v, (vk, val) in o['vars'].items():
+            vals.used.add(val)
+    new_types = {}
+
+    def visit(c):
+        for lab, nt in list(c['nodes'].items()):
+            base = spec['node_types'][nt]
+            over = copy.deepcopy(base.get('over', {}))
+            for opn in base['ops']:
+                op = spec['ops'][opn]
+                de = {e[1] for e in op['eqs'] if e[0] == 'de'}
+                for v, (vk, val) in op['vars'].items():
+                    if v in de:
+                        over.setdefault(opn, {})[v] = vals.new()
+                    elif vk == 'const' and params == 'different':
+                        over.setdefault(opn, {})[v] = vals.new()
+            name = f"{nt}__{lab}"
+            new_types[name] = {'ops': list(base['ops']), 'over': over}
+            c['nodes'][lab] = name
+        for sub in c['subs'].values():
+            visit(sub)
+
+    visit(spec['circ'])
+    spec['node_types'] = new_types
+    return spec
